@@ -27,8 +27,9 @@ pub fn build_arg(a: &Value) -> Arg {
     if !bytes_of(&a["long"]).is_empty() {
         x = x.long(s_of(&a["long"]));
     }
+    let visible: Vec<&Value> = a["valiases"].as_array().map(|v| v.iter().collect()).unwrap_or_default();
     for al in a["aliases"].as_array().unwrap() {
-        x = x.alias(s_of(al));
+        x = if visible.contains(&al) { x.visible_alias(s_of(al)) } else { x.alias(s_of(al)) };
     }
     match a["action"].as_str().unwrap() {
         "" => {}
